@@ -90,6 +90,7 @@ def run(ctx, rep):
     check_pattern_space(prog, rep)
     check_diff(prog, rep)
     check_eq(prog, rep)
+    check_writers(prog, rep)
     # R20.4: any native fill_* of MockDisplay must pair streams with the caller's area (shared rule R03.6)
     from rules.c03 import zip_rule_everywhere
     zip_rule_everywhere(prog, rep, only_adt=MD, rule="R20.4", floor=0)
@@ -505,3 +506,64 @@ def check_eq(prog, rep):
         except Unsupported:
             ok = False
     rep.check(ok, "R20.3", "eq", "MockDisplay::eq must compare the two complete pixel arrays (all 64x64 cells, including their number); found %s" % show(ro, maxd=6), at=eq.span, fn=eq.path)
+
+
+def check_writers(prog, rep):
+    """R20.5 who may change the cells: the `pixels` array is written only by set_pixel / set_pixel_unchecked (and filled
+    in by from_pattern, built by default/clone); the DrawTarget methods of MockDisplay change the display only through
+    draw_pixel, which applies the out-of-bounds and overdraw checks — a native fill or clear that stores colours itself
+    bypasses them."""
+    fi = field_index(prog, MD, "pixels")
+    DT = "embedded_graphics_core::draw_target::DrawTarget"
+    writers, ctors = set(), set()
+    for f in prog.fns.values():
+        if not f.body:
+            continue
+        for b in f.body["blocks"]:
+            for s_ in b["s"]:
+                if s_["k"] != "assign":
+                    continue
+                pl = s_["place"]
+                if any(isinstance(e, dict) and e.get("f") == fi for e in pl["p"]):
+                    # a store through field #pixels of a value whose type is MockDisplay
+                    ty = f.body["locals"][pl["l"]]["ty"]
+                    while isinstance(ty, dict) and "ref" in ty:
+                        ty = ty["ref"]
+                    if isinstance(ty, dict) and ty.get("adt") == MD:
+                        writers.add(f.root_fn().path.split("::")[-1])
+                if s_["rv"]["k"] == "agg" and s_["rv"].get("adt") == MD:
+                    ctors.add(f.root_fn().path.split("::")[-1])
+    rep.check(writers <= {"set_pixel", "set_pixel_unchecked", "from_pattern"} and writers & {"set_pixel", "set_pixel_unchecked"}, "R20.5", "pixel-writers",
+              "the cells may be stored only by set_pixel / set_pixel_unchecked (from_pattern fills a fresh display); stored in %s" % sorted(writers), detail=sorted(writers))
+    rep.check(ctors <= {"default", "clone", "new"}, "R20.5", "constructors", "MockDisplay values may be built only by default/clone; built in %s" % sorted(ctors), detail=sorted(ctors))
+    impls = [i for i in prog.impls.values() if i.get("trait") == DT and isinstance(i["self_ty"], dict) and i["self_ty"].get("adt") == MD]
+    rep.check(len(impls) == 1, "R20.5", "DrawTarget-impl", "expected one DrawTarget impl of MockDisplay, found %d" % len(impls), status="undecided")
+    for impl in impls:
+        for nm, fid in sorted(impl["fns"].items()):
+            f = prog.fns.get(fid)
+            if f is None or not f.body:
+                continue
+            fam = [f]
+            i = 0
+            while i < len(fam):
+                fam.extend(prog.closures_of.get(fam[i].id, []))
+                i += 1
+            bad = []
+            uses_draw_pixel = False
+            for g in fam:
+                for b in g.body["blocks"]:
+                    t = b["t"]
+                    if not (t and t["k"] == "call"):
+                        continue
+                    callee = t["f"].get("name")
+                    path = (t["f"].get("resolved") or t["f"]).get("path", "")
+                    if callee == "draw_pixel" and MD.split("::")[-1] in path:
+                        uses_draw_pixel = True
+                    elif callee in ("set_pixel", "set_pixel_unchecked", "set_pixels") and "mock_display" in path:
+                        bad.append("calls %s" % callee)
+            if f.root_fn().path.split("::")[-1] in writers:
+                bad.append("stores into the pixel array itself")
+            delegates = any(t_["f"].get("name") in impl["fns"] and t_["f"].get("name") != nm for g in fam for b in g.body["blocks"] for t_ in [b["t"]] if t_ and t_["k"] == "call")
+            rep.check(not bad and (uses_draw_pixel or delegates), "R20.5", "DrawTarget::" + nm,
+                      "MockDisplay::%s must change cells only through draw_pixel (which panics on out-of-bounds and repeated drawing when the checks are enabled); it %s" % (nm, "; ".join(bad) or "neither calls draw_pixel nor delegates to another drawing method"),
+                      at=f.span, fn=f.path)
